@@ -106,7 +106,17 @@ class Result:
 _main_cls = [None]
 
 
+_memo_done = [False]
+
+
 def _memoize_entity_map():
+    if _memo_done[0]:
+        return
+    _memo_done[0] = True
+    _memoize_entity_map_impl()
+
+
+def _memoize_entity_map_impl():
     """Every PyMarkdownLint().main() re-reads and re-filters resources/entities.json (half of the
     cost of a small scan).  The table is a pure function of that file, so the harness memoizes it on
     (path, mtime, size) and hands out a fresh copy each time.  Nothing else is altered."""
